@@ -99,6 +99,11 @@ func vWalUniverse(wl *vStore) (from string, want []string) {
 	from = vTokenAt(fromSec, 0x80)
 	offs := []int64{-1201, -1200, -1199, -600, 0, 1}
 	fills := []byte{0xff, 0x01, 0x40, 0x40, 0x10, 0x40}
+	if vThorough() {
+		// two more entries (kept in token order): one in the same second as the from-token with a larger random part, one a day later
+		offs = []int64{-1201, -1200, -1199, -600, 0, 0, 1, 86400}
+		fills = []byte{0xff, 0x01, 0x40, 0x40, 0x10, 0x90, 0x40, 0x40}
+	}
 	for i, d := range offs {
 		if vChoose("has", 2) == 1 {
 			tok := vTokenAt(fromSec+d, fills[i])
@@ -167,8 +172,10 @@ func VerifC19ListEntries() {
 		vCover("multi-read")
 	}
 	failing := ""
+	failIdx := -1
 	if len(want) > 0 && vChoose("getFails", 2) == 1 {
-		failing = want[vChoose("which", len(want))]
+		failIdx = vChoose("which", len(want))
+		failing = want[failIdx]
 		wl.fail = func(op, key string) error {
 			if op == "get" && key == failing {
 				return errVFault
@@ -179,11 +186,17 @@ func VerifC19ListEntries() {
 	}
 	max := vChoose("max", 3) + 5
 	entries, _, err := w.ListEntries(context.Background(), from, max)
-	if failing != "" && len(want) > 0 {
+	if failing != "" && failIdx < max {
 		vAssert(err != nil, "a-failed-read-is-reported")
 		return
 	}
+	if failing != "" {
+		return // the unreadable entry lies beyond the requested maximum: it is not read at all
+	}
 	vAssert(err == nil, "list-entries-succeeds")
+	if len(want) > max {
+		want = want[:max] // the listing stops at the requested maximum
+	}
 	vAssert(len(entries) == len(want), "every-entry-in-the-window-is-returned-once")
 	for i, e := range entries {
 		if i < len(want) {
